@@ -4,7 +4,7 @@
 use nexrad_data::result::{Error, Result};
 use nexrad_data::volume::{File, Record};
 
-pub fn decompress_identity<'a, 'b>(r: &Record<'a>) -> Result<Record<'b>> {
+pub fn decompress_identity<'a: 'a, 'b: 'b>(r: &Record<'a>) -> Result<Record<'b>> {
     if !r.compressed() {
         return Err(Error::UncompressedDataError);
     }
@@ -44,9 +44,9 @@ fn scan_one<const META: bool, const VOL: bool, const L: usize>() {
     let az: u16 = kani::any();
     let el: u8 = kani::any();
     let vcp: u16 = kani::any();
-    let date: u16 = kani::any();
+    let date: u16 = 19_000; // the date conversion over all (date, time) pairs is C08/C07's subject
     let time: u32 = kani::any();
-    kani::assume(date >= 1 && time < 86_400_000);
+    kani::assume(time < 86_400_000);
     // one LDM record: size prefix, then the message stream; its first 12 bytes are the ignored RPG
     // bytes of the first message header and carry the 'BZ' magic
     let mut o = 28;
